@@ -6,10 +6,11 @@ leave scope exactly when the frame stack drops below the starting frame, start a
 
 
 class CtlGen:
-    def __init__(self, rng):
+    def __init__(self, rng, spawn=False):
         self.r = rng
         self.stats = {}
         self.k = 0
+        self.spawn = spawn          # programs may spawn further scripts (sequential histories only)
 
     def note(self, k):
         self.stats[k] = self.stats.get(k, 0) + 1
@@ -22,7 +23,8 @@ class CtlGen:
         r = self.r
         k = r.weighted([('mark', 5), ('assign', 3), ('call', 3 if depth < 2 else 0), ('if', 2 if depth < 2 else 0),
                         ('for', 1 if depth < 1 else 0), ('foreach', 1 if depth < 1 else 0), ('err', 1),
-                        ('exitwith', 2 if depth < 2 else 0), ('breakout', 2 if depth < 1 else 0), ('trycatch', 1 if depth < 1 else 0)])
+                        ('exitwith', 2 if depth < 2 else 0), ('breakout', 2 if depth < 1 else 0), ('trycatch', 1 if depth < 1 else 0),
+                        ('spawn', 1 if self.spawn else 0)])
         self.note('stmt:' + k)
         if k == 'mark':
             return self.mark()
@@ -30,6 +32,9 @@ class CtlGen:
             return 'g%d = %d + %d' % (r.below(3), r.below(9), r.below(9))
         if k == 'err':
             return r.choice(['1 + "a"', '[] select 5', 'call 5'])
+        if k == 'spawn':
+            # a further script: it waits behind the stepped one until a start schedules it or an abort discards it
+            return '[] spawn { %s; %s }' % (self.mark(), self.mark())
         if k == 'exitwith':
             # one instruction (the end of the exitWith block) pops several frames at once
             return 'call { if (true) exitWith { %s; 7 }; %s }' % (self.mark(), self.mark())
